@@ -51,6 +51,7 @@ type tr struct {
 	via     map[string]string // struct name -> field that points to the single instance of a by-value struct (--via S.f)
 	devirt  map[string]string // interface name -> struct whose pointers its values are (--devirt I=S)
 	rootPk  *pkgInfo          // the package named by --pkg
+	timeInt bool              // --timeint: time.Time is Z, Before/After/Equal are comparisons
 	usesPtr bool              // the output needs lib.GoLitePtr (maps, iter_objs)
 	w       *world
 	fns     map[*types.Func]*fnInfo
@@ -65,7 +66,7 @@ func (t *tr) failf(n ast.Node, format string, a ...any) {
 	panic(&unsupported{fmt.Sprintf("%s: %s", t.w.pos(n), fmt.Sprintf(format, a...))})
 }
 
-func translate(repo, pkgdir string, roots, fuels, params, ifaces, shapes, require, objects, vias, devirts, stdpkgs []string, printShapes bool) (text string, err error) {
+func translate(repo, pkgdir string, roots, fuels, params, ifaces, shapes, require, objects, vias, devirts, stdpkgs []string, timeInt, printShapes bool) (text string, err error) {
 	defer func() {
 		if r := recover(); r != nil {
 			if u, ok := r.(*unsupported); ok {
@@ -103,6 +104,10 @@ func translate(repo, pkgdir string, roots, fuels, params, ifaces, shapes, requir
 		return "", err
 	}
 	t := &tr{rootPk: root, w: w, fns: map[*types.Func]*fnInfo{}, structs: map[*types.TypeName]*structInfo{}, fuel: map[string]string{}, libpar: map[string]string{}, iface: map[string]string{}, opaque: map[string]bool{}, objects: map[string]bool{}, via: map[string]string{}, devirt: map[string]string{}}
+	if timeInt {
+		t.timeInt = true
+		t.opaque["Time"] = true
+	}
 	for _, v := range vias {
 		i := strings.Index(v, ".")
 		if i < 0 {
